@@ -343,6 +343,9 @@ pub fn check_constraints(
 pub struct UCase {
     pub name: String,
     pub idx_cols: Vec<usize>,
+    /// `Some(n)`: the string-column variant T(C0 INT PRIMARY KEY, C1 INT, S VARCHAR(20), U VARCHAR(20)) with
+    /// `CREATE UNIQUE INDEX UXS ON T (S(n))` and the non-unique prefix index `CREATE INDEX IXU ON T (U(2))`
+    pub prefix_len: Option<usize>,
     pub trigger: bool,
     /// statements that must succeed (content of T before the statements under test)
     pub setup: Vec<String>,
@@ -352,10 +355,17 @@ pub struct UCase {
 
 pub fn uidx_db(c: &UCase) -> Db {
     let mut db = Db::new();
-    db.must("CREATE TABLE T (C0 INT PRIMARY KEY, C1 INT, C2 INT, C3 INT)");
-    db.must("CREATE TABLE S (C0 INT PRIMARY KEY, C1 INT, C2 INT, C3 INT)");
-    for col in &c.idx_cols {
-        db.must(&format!("CREATE UNIQUE INDEX UX{} ON T (C{})", col, col));
+    if let Some(n) = c.prefix_len {
+        db.must("CREATE TABLE T (C0 INT PRIMARY KEY, C1 INT, S VARCHAR(20), U VARCHAR(20))");
+        db.must("CREATE TABLE S (C0 INT PRIMARY KEY, C1 INT, S VARCHAR(20), U VARCHAR(20))");
+        db.must(&format!("CREATE UNIQUE INDEX UXS ON T (S({}))", n));
+        db.must("CREATE INDEX IXU ON T (U(2))");
+    } else {
+        db.must("CREATE TABLE T (C0 INT PRIMARY KEY, C1 INT, C2 INT, C3 INT)");
+        db.must("CREATE TABLE S (C0 INT PRIMARY KEY, C1 INT, C2 INT, C3 INT)");
+        for col in &c.idx_cols {
+            db.must(&format!("CREATE UNIQUE INDEX UX{} ON T (C{})", col, col));
+        }
     }
     if c.trigger {
         db.must("CREATE TABLE TLOG (K INT)");
@@ -381,6 +391,24 @@ pub fn uidx_db(c: &UCase) -> Db {
 pub fn uidx_dups(db: &Db, idx_cols: &[usize]) -> Vec<String> {
     let rows = db.scan("T").unwrap_or_default();
     let mut bad = vec![];
+    // string variant: the unique prefix index UXS is unique on the first n characters (MySQL semantics,
+    // which is also what the storage layer enforces for single-row INSERTs)
+    if let Some(n) = prefix_len_of(db) {
+        let mut ks: Vec<String> = rows
+            .iter()
+            .filter_map(|r| match &r[2] {
+                SqlValue::Varchar(s) | SqlValue::Character(s) => Some(s.chars().take(n).collect::<String>()),
+                _ => None,
+            })
+            .collect();
+        ks.sort();
+        let m = ks.len();
+        ks.dedup();
+        if m != ks.len() {
+            bad.push(format!("UXS (S({}))", n));
+        }
+        return bad;
+    }
     for c in idx_cols {
         let mut ks: Vec<String> = rows.iter().filter(|r| r[*c] != SqlValue::Null).map(|r| canon::val(&r[*c])).collect();
         ks.sort();
@@ -391,6 +419,11 @@ pub fn uidx_dups(db: &Db, idx_cols: &[usize]) -> Vec<String> {
         }
     }
     bad
+}
+
+/// prefix length of UXS when T is the string variant
+pub fn prefix_len_of(db: &Db) -> Option<usize> {
+    db.db.get_index("UXS").and_then(|m| m.columns.first().and_then(|c| c.prefix_length)).map(|n| n as usize)
 }
 
 fn urow(id: i64, over: &[(usize, Option<i64>)]) -> String {
@@ -453,6 +486,7 @@ pub fn uidx_scenarios() -> Vec<UCase> {
                 out.push(UCase {
                     name: format!("uidx {:?} nullkey=C{} dupkey=C{} via={} dup_of={}", idx_cols, a, b, via, dup_of),
                     idx_cols: idx_cols.clone(),
+                    prefix_len: None,
                     trigger: via == "trigger",
                     setup,
                     stmts: vec![(prelude, stmt, true), (vec![], ok_stmt, false)],
@@ -497,5 +531,154 @@ pub fn gen_uidx(r: &mut Rng, k: u64) -> UCase {
             stmts.push((vec![], format!("DELETE FROM T WHERE C0 <= {}", r.range(1, next_id.max(1))), false));
         }
     }
-    UCase { name: format!("uidx-gen{} {:?} trigger={}", k, cols, trigger), idx_cols: cols, trigger, setup: vec![], stmts }
+    UCase { name: format!("uidx-gen{} {:?} trigger={}", k, cols, trigger), idx_cols: cols, prefix_len: None, trigger, setup: vec![], stmts }
+}
+
+// ---------------------------------------------------------------------------------------------
+// prefix indexes on string columns: the layer that detects a violation differs (the storage layer
+// compares prefixes on its own; the executor has to apply the same truncation)
+// ---------------------------------------------------------------------------------------------
+
+fn prow(id: i64, s: Option<&str>, u: Option<&str>) -> String {
+    let q = |x: Option<&str>| x.map(|v| format!("'{}'", v)).unwrap_or_else(|| "NULL".into());
+    format!("({}, {}, {}, {})", id, id % 5, q(s), q(u))
+}
+
+fn via_stmt(via: &str, rows: &[String]) -> (Vec<String>, String) {
+    if via == "bulk" {
+        (vec!["DELETE FROM S".to_string(), format!("INSERT INTO S VALUES {}", rows.join(", "))], "INSERT INTO T SELECT * FROM S".to_string())
+    } else {
+        (vec![], format!("INSERT INTO T VALUES {}", rows.join(", ")))
+    }
+}
+
+/// multi-row INSERTs of 1..4 rows with the violating row at every position: a new full value whose
+/// prefix is already stored / used by an earlier row of the batch; UPDATEs to an existing prefix
+pub fn prefix_scenarios() -> Vec<UCase> {
+    let mut out = vec![];
+    for n in [3usize, 1] {
+        for via in ["values", "bulk", "trigger"] {
+            for k in 1..=4usize {
+                for pos in 0..k {
+                    for dup_of in ["stored", "batch"] {
+                        if dup_of == "batch" && pos == 0 {
+                            continue;
+                        }
+                        let good = ["gaa1", "hbb1", "icc1", "jdd1"];
+                        let rows: Vec<String> = (0..k)
+                            .map(|j| {
+                                let s = if j == pos {
+                                    if dup_of == "stored" { "abcY".to_string() } else { format!("{}Z", &good[0][..n.max(1)]) }
+                                } else {
+                                    good[j].to_string()
+                                };
+                                prow(100 + j as i64, Some(&s), Some(if j % 2 == 0 { "uu1" } else { "uu2" }))
+                            })
+                            .collect();
+                        let (prelude, stmt) = via_stmt(via, &rows);
+                        let ok_rows = vec![prow(200, None, None), prow(201, Some("zzz9"), Some("uu3")), prow(202, None, Some("uu3"))];
+                        let (p2, s2) = via_stmt(via, &ok_rows);
+                        out.push(UCase {
+                            name: format!("prefix({}) via={} rows={} failing_pos={} dup_of={}", n, via, k, pos, dup_of),
+                            idx_cols: vec![],
+                            prefix_len: Some(n),
+                            trigger: via == "trigger",
+                            setup: vec![format!("INSERT INTO T VALUES {}, {}", prow(9, Some("abcX"), Some("uu1")), prow(8, Some("xyzX"), Some("uu1")))],
+                            stmts: vec![(prelude, stmt, true), (p2, s2, false)],
+                        });
+                    }
+                }
+            }
+        }
+        out.push(UCase {
+            name: format!("prefix({}) updates", n),
+            idx_cols: vec![],
+            prefix_len: Some(n),
+            trigger: false,
+            setup: vec![format!("INSERT INTO T VALUES {}, {}, {}", prow(9, Some("abcX"), Some("uu1")), prow(8, Some("xyzX"), Some("uu1")), prow(7, None, None))],
+            stmts: vec![
+                (vec![], "UPDATE T SET S = 'abcW' WHERE C0 = 8".into(), true),
+                (vec![], "UPDATE T SET S = 'abcX2' WHERE C0 = 9".into(), false),
+                (vec![], "UPDATE T SET S = 'zzz' || S".into(), true),
+                (vec![], "UPDATE T SET S = 'abcQ' WHERE C0 >= 7".into(), true),
+                (vec![], "UPDATE T SET S = NULL WHERE C0 = 8".into(), false),
+                (vec![], "UPDATE T SET S = 'abcW' WHERE C0 = 8".into(), true),
+                (vec![], "UPDATE T SET U = 'uu' || U".into(), false),
+            ],
+        });
+    }
+    out
+}
+
+pub fn gen_prefix(r: &mut Rng, k: u64) -> UCase {
+    let pool = ["abc1", "abc2", "abd1", "ab", "xyz1", "xyz2", "x", "qqq1", "qq", "mno"];
+    let n = 1 + r.below(3) as usize;
+    let trigger = r.chance(1, 4);
+    let mut next_id = 0i64;
+    let mut stmts = vec![];
+    for _ in 0..(6 + r.below(5)) {
+        let kind = r.below(10);
+        if kind < 6 {
+            let cnt = 1 + r.below(4);
+            let rows: Vec<String> = (0..cnt)
+                .map(|_| {
+                    next_id += 1;
+                    let s = if r.chance(1, 5) { None } else { Some(*r.pick(&pool)) };
+                    let u = if r.chance(1, 5) { None } else { Some(*r.pick(&pool)) };
+                    prow(next_id, s, u)
+                })
+                .collect();
+            let (p, s) = via_stmt(if kind < 2 { "bulk" } else { "values" }, &rows);
+            stmts.push((p, s, false));
+        } else if kind < 9 {
+            let v = if r.chance(1, 5) { "NULL".to_string() } else { format!("'{}'", r.pick(&pool)) };
+            stmts.push((vec![], format!("UPDATE T SET {} = {} WHERE C0 {} {}", if r.chance(2, 3) { "S" } else { "U" }, v, if r.chance(1, 2) { "=" } else { ">=" }, r.range(1, next_id.max(1))), false));
+        } else {
+            stmts.push((vec![], format!("DELETE FROM T WHERE C0 <= {}", r.range(1, next_id.max(1))), false));
+        }
+    }
+    UCase { name: format!("prefix-gen{} n={} trigger={}", k, n, trigger), idx_cols: vec![], prefix_len: Some(n), trigger, setup: vec![], stmts }
+}
+
+/// Direct storage-API probe: `Database::insert_rows_batch` checks user-defined unique indexes for all
+/// rows before it inserts any — a refused row at any position leaves table and indexes untouched.
+/// Returns (name, replay) of every failing sub-case.
+pub fn storage_batch_probe() -> Vec<(String, String)> {
+    let mut failures = vec![];
+    for prefix in [None, Some(3usize)] {
+        for k in 2..=4usize {
+            for pos in 0..k {
+                let c = UCase {
+                    name: String::new(),
+                    idx_cols: if prefix.is_none() { vec![2] } else { vec![] },
+                    prefix_len: prefix,
+                    trigger: false,
+                    setup: vec![if prefix.is_some() { format!("INSERT INTO T VALUES {}", prow(9, Some("abcX"), Some("uu1"))) } else { "INSERT INTO T VALUES (9, 0, 5, 0)".to_string() }],
+                    stmts: vec![],
+                };
+                let mut db = uidx_db(&c);
+                let rows: Vec<vibesql_storage::Row> = (0..k)
+                    .map(|j| {
+                        let id = SqlValue::Integer(100 + j as i64);
+                        if prefix.is_some() {
+                            let s = if j == pos { "abcY".to_string() } else { format!("g{}a1", j) };
+                            vibesql_storage::Row::new(vec![id, SqlValue::Integer(1), SqlValue::Varchar(s), SqlValue::Varchar("uu1".into())])
+                        } else {
+                            vibesql_storage::Row::new(vec![id, SqlValue::Integer(1), SqlValue::Integer(if j == pos { 5 } else { 50 + j as i64 }), SqlValue::Integer(1)])
+                        }
+                    })
+                    .collect();
+                let before = canon::rows_seq(&db.scan("T").unwrap_or_default());
+                let res = db.db.insert_rows_batch("T", rows);
+                let after = canon::rows_seq(&db.scan("T").unwrap_or_default());
+                if res.is_ok() || before != after {
+                    failures.push((
+                        format!("storage insert_rows_batch, {} unique index, {} rows, refused row at position {}", if prefix.is_some() { "prefix" } else { "plain" }, k, pos),
+                        format!("{}\n-- Database::insert_rows_batch(\"T\", {} rows, row {} duplicates the stored key) => {:?}\nbefore {}\nafter  {}", db.log.join(";\n"), k, pos, res.map(|_| ()).map_err(|e| e.to_string()), before, after),
+                    ));
+                }
+            }
+        }
+    }
+    failures
 }
